@@ -302,6 +302,30 @@ def _run_e1c(prog, rep):
                 else:
                     rep.violation("E1.c", key, where, "scan loop: %s" % adv)
                 continue
+            # (3a) walks down an owned structure: on every cycle a local is replaced by a proper part of itself (a field behind a Box /
+            #      reference: `while let InContext(_, cause) = error { …; error = cause.as_ref(); }`) — the structure is finite
+            desc = set()
+            for b in blocks:
+                for st in body.blocks[b]["stmts"]:
+                    if st.get("k") != "assign" or st["p"].get("p"):
+                        continue
+                    try:
+                        e = strip(tr.rvalue(st["rv"]))
+                    except Exception:
+                        continue
+                    while e[0] == "call" and e[3] and re.search(r"(AsRef::as_ref|Deref::deref|Borrow::borrow)$", e[1] or ""):
+                        e = strip(e[3][0])
+                    if e[0] == "place" and any(p[0] == "field" for p in e[2]):
+                        r = root(e) if False else e[1]
+                        rr = strip(r)
+                        alts = list(rr[1]) if rr[0] == "phi" else [rr]
+                        # ("rec", l): the value the traced chain had on the previous round (l is whichever local closes the cycle)
+                        if any(a[0] == "rec" for a in alts):
+                            desc.add(b)
+            if desc and not cycle_avoiding(body, header, blocks, desc):
+                stats["finite-iterator"] += 1
+                rep.ok("E1.c", key, where, "every cycle replaces the walked value by a proper part of itself (finite owned structure)")
+                continue
             # (3b) ancestor walks: every cycle steps to tree_sitter::Node::parent()
             par = set()
             for b in blocks:
